@@ -58,8 +58,9 @@ class ScriptedTLSServer(threading.Thread):
             except OSError:
                 pass
 
-    def drain(self, conn, seconds):
-        """collect what the client writes for a while"""
+    def drain(self, conn, seconds, stay_open=False):
+        """collect what the client writes for a while.  stay_open: a peer that never reacts - not even to a TLS
+        close_notify or to end of stream - and just keeps the TCP connection open for the whole period"""
         conn.settimeout(0.2)
         t0 = time.monotonic()
         while time.monotonic() - t0 < seconds:
@@ -68,7 +69,11 @@ class ScriptedTLSServer(threading.Thread):
             except (socket.timeout, ssl.SSLWantReadError):
                 continue
             except (OSError, ssl.SSLError):
+                if stay_open:
+                    time.sleep(max(0.0, seconds - (time.monotonic() - t0)))
                 return
             if not d:
+                if stay_open:
+                    time.sleep(max(0.0, seconds - (time.monotonic() - t0)))
                 return
             self.client_bytes += d
